@@ -11,6 +11,7 @@ mod sexp;
 mod coremode;
 mod tymode;
 mod impmode;
+mod projmode;
 
 fn main() {
     let args: Vec<String> = std::env::args().collect();
@@ -61,6 +62,7 @@ fn dispatch(mode: &str, payload: &str) -> String {
         "pipe" => pipemode::pipe(payload),
         "core" => coremode::print(payload),
         "imports" => impmode::imports(payload),
+        "proj" => projmode::proj(payload),
         "tysup" => tymode::sup(payload),
         "tyunion" => tymode::union(payload),
         "tyclasses" => tymode::classes(payload),
